@@ -29,7 +29,7 @@ GrowOK(ln) == ln.ok => (Gt(ln.newcap, ln.cap) /\ ln.called /\ Geq(ln.req, Mul(ln
 RECURSIVE Total(_, _, _)
 Total(lens, k, acc) == IF k > Len(lens) THEN acc
                        ELSE Total(lens, k + 1, Add(acc, AddSmall(lens[k], 1 + ShortestArgw(lens[k]))))
-SerSizeOK(ln) == LET t == Total(ln.lens, 1, <<2 + ln.wrap>>) IN           \* (wrap: bytes of the tags / containers around it)
+SerSizeOK(ln) == LET t == AddSmall(MulSmall(Total(ln.lens, 1, <<2>>), ln.mult), ln.wrap) IN   \* (the string occurs mult times inside wrappers adding wrap bytes)
                  IF Fits(t, 8) THEN Eq(ln.size, t) ELSE Strip(ln.size) = <<>>   \* the exact mathematical total, or 0
 
 LineOK(ln) == CASE ln.e = "mu" -> MuOK(ln) [] ln.e = "e2e" -> E2eOK(ln) [] ln.e = "grow" -> GrowOK(ln) [] OTHER -> SerSizeOK(ln)
